@@ -242,6 +242,36 @@ let run_Q caseno tk =
     | _ -> let m = r_mds tk in let a = r_arg tk in QIndexArr (m, a, ni tk) in
   Printf.printf "Q %d %s\n" caseno (pr_transcript ["r17"; "r20"] (q_query q))
 
+(* family G: prog kind ... (descriptors as in family Q; elt = base const) *)
+let run_G caseno tk =
+  let _prog = next_int tk in
+  let ni tk = nat_of_int (next_int tk) in
+  let r_ity tk = ity_of_nat (ni tk) in
+  let r_ext tk = let t = r_ity tk in let r = next_int tk in let pat = take_n tk r (fun tk -> opt_of_tok (next tk)) in { x_t = t; x_pat = pat } in
+  let r_map tk = let l = next_int tk in let pv = opt_of_tok (next tk) in let e = r_ext tk in
+    { m_lay = (match l with 0 -> LL | 1 -> LR | 2 -> LS | 3 -> LLP pv | _ -> LRP pv); m_ext = e } in
+  let r_elt tk = let b = ni tk in let c = next_int tk in { el_base = b; el_const = (c <> 0) } in
+  let r_acc tk = let k = next_int tk in let e = r_elt tk in let id = ni tk in if k = 0 then ADefault e else AUser (e, id) in
+  let r_mds tk = let m = r_map tk in let a = r_acc tk in { md_map = m; md_acc = a } in
+  let r_itys tk = let n = next_int tk in take_n tk n r_ity in
+  let q = match next_int tk with
+    | 0 -> GCtad (match next_int tk with
+             | 0 -> FExtentsPack (r_itys tk)
+             | 1 -> let el = r_elt tk in FMdsPack (el, r_itys tk)
+             | 2 -> FMdsPtr (r_elt tk)
+             | 3 -> let el = r_elt tk in FMdsCArray (el, next_z tk)
+             | 4 -> let el = r_elt tk in let t = r_ity tk in FMdsArray (el, t, ni tk)
+             | 5 -> let el = r_elt tk in FMdsExtents (el, r_ext tk)
+             | 6 -> let el = r_elt tk in FMdsMapping (el, r_map tk)
+             | 7 -> let m = r_map tk in FMdsMappingAcc (m, r_acc tk)
+             | _ -> let m = r_map tk in FMapping (m.m_lay, m.m_ext))
+    | 1 -> let t = r_ity tk in GDextents (t, ni tk)
+    | 2 -> GMembersExt (r_ext tk)
+    | 3 -> GMembersMap (r_map tk)
+    | 4 -> GMembersMds (r_mds tk)
+    | _ -> let k = ni tk in GNoexcept (k, ni tk) in
+  Printf.printf "G %d %s\n" caseno (pr_transcript ["r"] (g_query q))
+
 (* family X: prog kind ... *)
 let run_X caseno tk =
   let _prog = next_int tk in
@@ -287,6 +317,7 @@ let () =
           | "T" -> run_T !caseno tk
           | "L" -> run_L !caseno tk
           | "Q" -> run_Q !caseno tk
+          | "G" -> run_G !caseno tk
           | f -> Printf.printf "%s %d unknown-family\n" f !caseno);
          incr caseno
        end
